@@ -58,7 +58,10 @@ def jobs(pid, tier):
                                 r'once_(int|counted)_(val-exc|exc-drop|exc-start)_cohasv'], bound=2, workers=2)]
         return [vrt('C01', [r'once_[a-z]+_[a-z]+-[a-z]+_none', r'once_[a-z]+_(nop|assign)_.*'], unbounded=True, workers=2),
                 vrt('C01', [r'once_[a-z]+_[a-z]+-[a-z]+_(wait|coro|hasv|cohasv)'], bound=3, workers=4),
-                vrt('C01', [r'once_[a-z]+_[a-z]+-[a-z]+-[a-z]+_.*'], bound=3, workers=8)]
+                vrt('C01', [r'once_counted_[a-z]+-[a-z]+-[a-z]+_(none|wait|coro)'], bound=2, workers=4),
+                vrt('C01', [r'once_int_[a-z]+-[a-z]+-[a-z]+_(none|wait|coro)'], bound=3, workers=8),
+                vrt('C01', [r'once_(moveonly|ref|void)_(val-val-val|val-exc-drop|val-mvcall-mvdie|exc-assign-start|drop-mvdie-start|val-start-start)_.*',
+                            r'once_(int|counted)_(val-exc-drop|val-mvcall-mvdie|exc-assign-start|val-start-start)_(hasv|cohasv)'], bound=3, workers=8)]
     if pid == 'C02':
         if q:
             return [vrt('C02', [r'wake1_.*'], unbounded=True, workers=2),
